@@ -104,7 +104,7 @@ func run(c *lib.Ctx) error {
 	for pi, p := range procs {
 		old := runtime.GOMAXPROCS(p)
 		n := nHist / len(procs)
-		hs, err := record(c, scratch, fmt.Sprintf("p%d", p), c.Seed*1_000_003+int64(pi)*7919, n, false)
+		hs, err := record(c, scratch, fmt.Sprintf("p%d", p), c.Seed*1_000_003+int64(pi)*7919, n, false, false)
 		runtime.GOMAXPROCS(old)
 		if err != nil {
 			wg.Wait()
@@ -112,8 +112,24 @@ func run(c *lib.Ctx) error {
 		}
 		hists = append(hists, hs...)
 	}
+	// burst histories (simultaneous AddCmd, then reads with nothing in flight), GOMAXPROCS 2..16
+	nBurst := c.Pick(400, 2000)
+	bprocs := []int{2, 3, 4, 8, 16}
+	var bursts []History
+	for pi, p := range bprocs {
+		old := runtime.GOMAXPROCS(p)
+		hs, err := record(c, scratch, fmt.Sprintf("b%d", p), c.Seed*2_000_003+int64(pi)*104729, nBurst/len(bprocs), false, true)
+		runtime.GOMAXPROCS(old)
+		if err != nil {
+			wg.Wait()
+			return err
+		}
+		bursts = append(bursts, hs...)
+	}
+	c.Set("burst_histories", len(bursts))
+	c.Set("burst_gomaxprocs_sweep", bprocs)
 	if c.Thorough() {
-		hs, err := record(c, scratch, "proc", c.Seed*1_000_003+999_983, 200, true)
+		hs, err := record(c, scratch, "proc", c.Seed*1_000_003+999_983, 200, true, false)
 		if err != nil {
 			wg.Wait()
 			return err
@@ -128,15 +144,24 @@ func run(c *lib.Ctx) error {
 	}
 
 	if d := os.Getenv("VERIF_C26_DUMP"); d != "" { // development aid: write the recorded histories
-		for i, h := range hists {
+		for i, h := range append(hists, bursts...) {
 			os.WriteFile(fmt.Sprintf("%s/h%03d.ndjson", d, i), lib.NDJSON(h.Rebased(0, 1)), 0o644)
 		}
 		return lib.Infra("histories dumped to %s", d)
 	}
 	// ---- V: judge, in batches of histories per TLC run
-	if err := judgeAll(c, dir, hists); err != nil {
-		wg.Wait()
-		return err
+	// both families at once, two acceptor processes each (M and the self-test are done by now or nearly so)
+	var jerr [2]error
+	var jwg sync.WaitGroup
+	jwg.Add(2)
+	go func() { defer jwg.Done(); jerr[0] = judgeAll(c, dir, hists, c.Pick(50, 60)) }()
+	go func() { defer jwg.Done(); jerr[1] = judgeAll(c, dir, bursts, 100) }()
+	jwg.Wait()
+	for _, err := range jerr {
+		if err != nil {
+			wg.Wait()
+			return err
+		}
 	}
 	wg.Wait()
 	if firstErr != nil {
@@ -148,8 +173,7 @@ func run(c *lib.Ctx) error {
 
 // judgeAll validates the histories in batches; a rejected history is reported and the rest of its
 // batch is validated again without it.
-func judgeAll(c *lib.Ctx, dir string, hists []History) error {
-	per := c.Pick(50, 60)
+func judgeAll(c *lib.Ctx, dir string, hists []History, per int) error {
 	type batch struct{ hs []History }
 	var batches []batch
 	for i := 0; i < len(hists); i += per {
